@@ -348,7 +348,13 @@ pub enum Which {
 #[derive(Clone, Debug, Serialize, Deserialize, Hash)]
 pub enum OpR {
     Declare,
-    Discharge { which: Which, fail: bool },
+    Discharge {
+        which: Which,
+        fail: bool,
+        /// commit by leaving the fail field unset (a legal encoding of fail=false that e.g. AmqpNetLite uses)
+        #[serde(default)]
+        omit_fail: bool,
+    },
     Post { which: Which, size: u16, settled: bool },
     Plain { size: u16 },
     DetachControl,
@@ -374,7 +380,7 @@ fn which() -> BoxedStrategy<Which> {
 pub fn case_r_strategy() -> BoxedStrategy<CaseR> {
     let op = prop_oneof![
         3 => Just(OpR::Declare),
-        4 => (which(), any::<bool>()).prop_map(|(which, fail)| OpR::Discharge { which, fail }),
+        4 => (which(), any::<bool>(), prop::bool::weighted(0.4)).prop_map(|(which, fail, omit_fail)| OpR::Discharge { which, fail, omit_fail: omit_fail && !fail }),
         8 => (which(), size(), prop::bool::weighted(0.25)).prop_map(|(which, size, settled)| OpR::Post { which, size, settled }),
         2 => size().prop_map(|size| OpR::Plain { size }),
         1 => Just(OpR::DetachControl),
@@ -543,7 +549,7 @@ pub async fn run_resource(c: &CaseR) -> Result<InfoR, String> {
                 live.push((id, vec![]));
                 deliveries!(step, "declare", vec![]);
             }
-            OpR::Discharge { which, fail } => {
+            OpR::Discharge { which, fail, omit_fail } => {
                 if !control_attached {
                     continue;
                 }
@@ -551,7 +557,7 @@ pub async fn run_resource(c: &CaseR) -> Result<InfoR, String> {
                     Some(x) => x,
                     None => continue,
                 };
-                let payload = amqp_value_msg(rframe::perf(&crate::spec::DISCHARGE, vec![RValue::Binary(id.clone()), RValue::Bool(*fail)]));
+                let payload = amqp_value_msg(rframe::perf(&crate::spec::DISCHARGE, if *omit_fail && !*fail { vec![RValue::Binary(id.clone())] } else { vec![RValue::Binary(id.clone()), RValue::Bool(*fail)] }));
                 peer.send_frame(my_ch, &Peer::transfer_body(ch_handle, Some(did), Some(&did.to_be_bytes()), Some(0), Some(false), false, None, false), &payload).await.map_err(|e| format!("HARNESS: {e}"))?;
                 let my_did = did;
                 did += 1;
